@@ -21,7 +21,7 @@ EXPLANATION = (
     "nothing that ends the line, a semicolon reaches no printer operation at all, a value reaches print and "
     "nothing that ends the line or pads, PrintEnd ends the line only on the edge the statement's flag allows; "
     "(R4) that flag as a machine: a separator sets it, a value clears it, PrintEnd returns its negation and "
-    "clears it (constant propagation over every path of the four PrintState methods, from both states); "
+    "(unless the start of a statement does, C16.R11) clears it (constant propagation over every path of the four PrintState methods, from both states); "
     "(R5) for every implementation of Printer: println zeroes the column counter on every path and writes "
     "CR LF; print splits its text on a predicate that is true for CR and LF and for nothing else (truth table "
     "over ASCII), ends the line between the parts and sends each part through the routine that advances the "
@@ -709,6 +709,11 @@ def r4_flag_machine(ctx, state_fns, rule="C16.R4"):
                        what, flag, bool(want),
                        "a trailing separator keeps the line open" if want else "the line ends after a value unless a separator follows",
                        "; ".join(sorted(set(bad))[:3])))
+    # does the start of a statement write the flag (C16.R11)?  Then what PrintEnd leaves in it is of no consequence.
+    start_fn = None
+    for g0 in (ms.get("set_printer_type"), ms.get("reset")):
+        if g0 is not None and _may_write_field(prog, g0, flag):
+            start_fn = g0
     f = fn_of("PrintEnd")
     if f is None:
         ctx.violation(rule, rule + ":PrintEnd", "-", "the VM arm of PrintEnd calls no PrintState method")
@@ -725,10 +730,12 @@ def r4_flag_machine(ctx, state_fns, rule="C16.R4"):
                         unk.append("the returned new-line flag is not decided on a path")
                     elif nl != 1 - init:
                         bad.append("returns new-line = %s" % {0: "false", 1: "true"}[nl])
-                    if fields.get(flag) is None:
+                    if start_fn is not None:
+                        pass        # the next statement starts by writing the flag
+                    elif fields.get(flag) is None:
                         unk.append("the flag after the call is not decided on a path")
                     elif fields.get(flag) != 0:
-                        bad.append("leaves the flag set")
+                        bad.append("leaves the flag set (and nothing clears it when the next statement starts)")
                 elif ret is None:
                     unk.append("a returned value is not decided")
             if not oks:
@@ -738,7 +745,7 @@ def r4_flag_machine(ctx, state_fns, rule="C16.R4"):
                 ctx.unknown(rule, k2, f.loc, "; ".join(sorted(set(unk))[:2]))
                 continue
             ctx.decide(not bad, rule, k2, f.loc,
-                       "returns new-line = %s and clears the flag" % (not init),
+                       "returns new-line = %s%s" % (not init, "" if start_fn is not None else " and clears the flag"),
                        "%s with the flag %s: %s - %s" % (
                            f.name, "set" if init else "clear", "; ".join(sorted(set(bad))),
                            "a PRINT that ends in a separator must not end the line, any other must, and the next "
